@@ -702,10 +702,12 @@ func specParseDec64(s string) int {
 //@ assigns VariantStack
 
 //@ func GenerateX86
-//@ props C14 C10 C03 C13
+//@ props C14 C10 C03 C13 C17
 //@ requires ctx != nil
+//@ requires[A13] forall(0, len(ocodes), func(k int) bool { return ocodes[k].BitMode == 0 || ocodes[k].BitMode == cpu.MODE_16BIT || ocodes[k].BitMode == cpu.MODE_32BIT })
 //@ requires ctx.BitMode == cpu.MODE_16BIT || ctx.BitMode == cpu.MODE_32BIT
 //@ requires ctx.DollarPosition <= 0xFFFFFFFF
-//@ loop 0 invariant ctx.VS != nil
+//@ loop 0 invariant ctx.VS != nil && (ctx.BitMode == cpu.MODE_16BIT || ctx.BitMode == cpu.MODE_32BIT)
+//@ calls[mode@C17] processOcode : arg0.BitMode == 0 || arg1.BitMode == arg0.BitMode
 //@ ensures[result] len(result0) == len(ctx.MachineCode)
-//@ assigns CodeGenContext.MachineCode, CodeGenContext.VS, VariantStack
+//@ assigns CodeGenContext.MachineCode, CodeGenContext.VS, CodeGenContext.BitMode, VariantStack
